@@ -29,9 +29,10 @@ class Explored:
 class HandProblem:
     """A hand-written corpus problem with the same interface as GenProblem (problem, actions, ground_instances)."""
 
-    def __init__(self, problem, label):
+    def __init__(self, problem, label, script=None):
         self.problem = problem
         self.label = label
+        self.script = script or []      # [(action name, [arg expressions])]: a walk the explorer replays step by step
         self.actions = list(problem.actions)
         self.em = problem.environment.expression_manager
 
@@ -149,6 +150,36 @@ def corpus_problems():
     c2.add_increase_effect(n, w(v), forall=(v,))
     p.add_action(a); p.add_action(b); p.add_action(c2); p.add_goal(env.expression_manager.Equals(n, 3))
     out.append(HandProblem(p, "forall-conflict-after-expansion"))
+    # 7. a state invariant that reads a fluent through a nested fluent argument: safe(dock)
+    env, tm, T, p, o1, o2 = base("invariant-through-nested-fluent")
+    dock = Fluent("dock", T, environment=env)
+    safe = Fluent("safe", tm.BoolType(), x=T, environment=env)
+    p.add_fluent(dock, default_initial_value=o1); p.add_fluent(safe, default_initial_value=True)
+    em = env.expression_manager
+    a = InstantaneousAction("unsafe", l=T, _env=env)
+    a.add_effect(safe(a.parameter("l")), False)
+    b = InstantaneousAction("move", l=T, _env=env)
+    b.add_effect(dock, b.parameter("l"))
+    p.add_action(a); p.add_action(b)
+    p.add_state_invariant(safe(dock))
+    p.add_goal(em.Equals(dock, o2))
+    out.append(HandProblem(p, "invariant-through-nested-fluent"))
+    # 8. long chains of states: the 21st consecutive successor collapses UPState's ancestor chain; it resets a fluent to
+    #    its default value, which an older ancestor had changed
+    env, tm, T, p, o1, o2 = base("long-chain-default-reset")
+    b0 = Fluent("b", tm.BoolType(), environment=env)
+    c = Fluent("c", tm.IntType(), environment=env)
+    z = Fluent("z", tm.IntType(0, 5), x=T, environment=env)
+    p.add_fluent(b0, default_initial_value=False); p.add_fluent(c, default_initial_value=0); p.add_fluent(z, default_initial_value=0)
+    em = env.expression_manager
+    tick = InstantaneousAction("tick", _env=env); tick.add_increase_effect(c, 1)
+    setb = InstantaneousAction("setb", l=T, _env=env); setb.add_effect(b0, True); setb.add_effect(z(setb.parameter("l")), 3)
+    resetb = InstantaneousAction("resetb", l=T, _env=env); resetb.add_effect(b0, False); resetb.add_effect(z(resetb.parameter("l")), 0)
+    p.add_action(tick); p.add_action(setb); p.add_action(resetb)
+    p.add_goal(em.And(em.Not(b0), em.LE(20, c)))
+    O1, O2 = em.ObjectExp(o1), em.ObjectExp(o2)
+    script = [("setb", [O1])] + [("tick", [])] * 19 + [("resetb", [O1]), ("tick", []), ("setb", [O2])] + [("tick", [])] * 18 + [("resetb", [O2]), ("tick", [])]
+    out.append(HandProblem(p, "long-chain-default-reset", script=script))
     return out
 
 
@@ -187,7 +218,7 @@ def metric_corpus():
     return out
 
 
-def explore_problem(idx, rng, depth, max_states, max_inst_per_state, knobs, gen=None):
+def explore_problem(idx, rng, depth, max_states, max_inst_per_state, knobs, gen=None, walk_len=0):
     import unified_planning as up
     from unified_planning.engines.sequential_simulator import UPSequentialSimulator
     from unified_planning.exceptions import UPProblemDefinitionError
@@ -255,6 +286,50 @@ def explore_problem(idx, rng, depth, max_states, max_inst_per_state, knobs, gen=
             after = ser.read_state(st)
             rec["state_changed"] = after != vals
             ex.pairs.append(rec)
+    # walks: a scripted one for corpus problems, random ones otherwise (long chains of successor states)
+    def one_step(st, a, args, sidx):
+        vals = ser.read_state(st)
+        rec = {"state": vals, "action": a, "args": args, "raised": None, "sidx": sidx, "walk": True}
+        nxt = None
+        try:
+            rec["isapp"] = bool(sim.is_applicable(st, a, args))
+        except Exception as e:  # noqa
+            rec["isapp"] = None
+            rec["raised"] = "is_applicable:" + type(e).__name__ + ":" + str(e)[:80]
+        try:
+            nxt = sim.apply(st, a, args)
+            rec["apply"] = None if nxt is None else ser.read_state(nxt)
+        except Exception as e:  # noqa
+            rec["apply"] = None
+            rec["raised"] = (rec["raised"] or "") + " apply:" + type(e).__name__ + ":" + str(e)[:80]
+        rec["state_changed"] = ser.read_state(st) != vals
+        ex.pairs.append(rec)
+        return nxt
+
+    byname = {a.name: a for a in gen.actions}
+    script = getattr(gen, "script", None)
+    if script:
+        st = s0
+        for name, args in script:
+            ex.state_objs.append(st)
+            nxt = one_step(st, byname[name], tuple(args), len(ex.state_objs) - 1)
+            if nxt is None:
+                break
+            st = nxt
+    elif walk_len and insts:
+        st = s0
+        for _ in range(walk_len):
+            ex.state_objs.append(st)
+            cands = list(insts)
+            rng.shuffle(cands)
+            nxt = None
+            for a, args in cands[:6]:
+                nxt = one_step(st, a, args, len(ex.state_objs) - 1)
+                if nxt is not None:
+                    break
+            if nxt is None:
+                break
+            st = nxt
     return ex
 
 
